@@ -94,6 +94,7 @@ package cache
 //@ ghost var lastFiles []repository.Hash
 //@ func (*BugCache).AddCommentRaw
 //@   props C18 C11
+//@   requires [message-is-clean@sanitized] text.safeFrom(message, 0)
 //@   opt locks
 //@   opt post_unguarded
 //@   requires [authored-by-request-user] requestUser != nil ==> typeof(author) == type[*IdentityCache] && author.(*IdentityCache) == requestUser
@@ -122,6 +123,7 @@ package cache
 //@   ensures [lock-balanced] forall m *sync.RWMutex :: { sync.rwheld[m] } sync.rwheld[m] == old(sync.rwheld[m])
 //@ func (*BugCache).SetTitleRaw
 //@   props C18 C11
+//@   requires [title-is-a-clean-line@sanitized] text.oneLineFrom(title, 0)
 //@   opt locks
 //@   opt post_unguarded
 //@   requires [authored-by-request-user] requestUser != nil ==> typeof(author) == type[*IdentityCache] && author.(*IdentityCache) == requestUser
@@ -133,8 +135,22 @@ package cache
 //@   defines bugOps >= old(bugOps) && (err == nil ==> bugOps == old(bugOps) + 1)
 //@   ensures [sub-cache-notified] err == nil ==> entityNotifies == old(entityNotifies) + 1
 //@   ensures [lock-balanced] forall m *sync.RWMutex :: { sync.rwheld[m] } sync.rwheld[m] == old(sync.rwheld[m])
-//@ func (*BugCache).ChangeLabelsRaw
+// A caller that takes label texts from outside (a bridge: opt sanitized) hands over clean single lines only - the
+// operation's Validate refuses anything else, and a refused operation fails the whole import of that issue, every time
 //@ func (*BugCache).ForceChangeLabelsRaw
+//@   requires [labels-are-clean-lines@sanitized] (forall k int :: { added[k] } 0 <= k && k < len(added) ==> text.oneLineFrom(added[k], 0)) && (forall k int :: { removed[k] } 0 <= k && k < len(removed) ==> text.oneLineFrom(removed[k], 0))
+//@   props C18 C11
+//@   opt locks
+//@   opt post_unguarded
+//@   requires [authored-by-request-user] requestUser != nil ==> typeof(author) == type[*IdentityCache] && author.(*IdentityCache) == requestUser
+//@   requires [not-held@locks] c != nil && sync.rwheld[&c.mu] == 0
+//@   modifies bugOps, repoWrites, entityNotifies
+//@   opt trusted_frame
+//@   stable entityNotifies
+//@   defines bugOps >= old(bugOps) && (err == nil ==> bugOps == old(bugOps) + 1)
+//@   ensures [sub-cache-notified] err == nil ==> entityNotifies == old(entityNotifies) + 1
+//@   ensures [lock-balanced] forall m *sync.RWMutex :: { sync.rwheld[m] } sync.rwheld[m] == old(sync.rwheld[m])
+//@ func (*BugCache).ChangeLabelsRaw
 //@ func (*BugCache).OpenRaw
 //@ func (*BugCache).CloseRaw
 //@ func (*BugCache).SetMetadataRaw
@@ -153,6 +169,7 @@ package cache
 //@ ghost var lastNewMeta map[string]string
 //@ func (*RepoCacheBug).NewRaw
 //@   trusted
+//@   requires [texts-are-clean@sanitized] text.oneLineFrom(title, 0) && text.safeFrom(message, 0)
 //@   requires [authored-by-request-user] requestUser != nil ==> typeof(author) == type[*IdentityCache] && author.(*IdentityCache) == requestUser
 //@   modifies bugOps, repoWrites, lastNewMeta
 //@   ensures bugOps >= old(bugOps) && (err == nil ==> bugOps == old(bugOps) + 1)
